@@ -878,10 +878,14 @@ void Node::note_upload_start(const PendingUploadRequest& request, std::size_t pa
     state.peer_id = request.peer_id;
     state.started_at = std::chrono::steady_clock::now();
     state.payload_size = payload_size;
-    active_uploads_[key] = state;
+    const bool inserted = active_uploads_.insert_or_assign(key, state).second;
 
-    const auto peer_key = peer_id_to_string(request.peer_id);
-    active_uploads_per_peer_[peer_key] += 1;
+    if (inserted) {
+        // A repeated request for a (peer, chunk) transfer that is still in flight restarts that
+        // transfer; it keeps occupying the one slot note_upload_end() will release.
+        const auto peer_key = peer_id_to_string(request.peer_id);
+        active_uploads_per_peer_[peer_key] += 1;
+    }
 
     const auto current_active = active_uploads_.size();
     auto peak = peak_active_uploads_.load(std::memory_order_relaxed);
